@@ -18,6 +18,8 @@ Core Lean only.
   the default, and afterwards neither side sees the other's writes; `thread_isolation_state` is the
   state form of isolation;
 * `unknown_code_fails`, `unknown_code_fails_in_block`, `known_code_dispatches`;
+* `explicit_call_ignores_ambient`, `explicit_call_outside` — an explicit method inside a block of any other code
+  gives what it gives outside;
 * `deferred_entry_restores`, `deferred_entry_observation`, `thread_isolation_deferred` — manager objects built
   before they are entered (pre-built managers, `__enter__`/`__exit__`, ExitStack, decorator form, built in one
   thread and entered in another): the value restored is the one in force at ENTER time;
@@ -35,7 +37,7 @@ def Ev.isExit : Ev → Bool
 
 /-- events that do not open or close a block -/
 def Ev.isAtom : Ev → Bool
-  | .get | .arith _ | .spawnThread _ | .spawnTask _ => true
+  | .get | .arith _ | .call _ _ | .spawnThread _ | .spawnTask _ => true
   | _ => false
 
 /-- well-nested histories `H ::= ε | atom | enter d · H · (exit|raise|genClose) | H · H`, any depth -/
@@ -244,6 +246,32 @@ theorem unknown_code_fails_in_block (op : Op) (n : Nat) {es : List Ev} (h : Bala
 
 theorem unknown_code_fails_in_block_statement : UnknownCodeFailsInBlockStatement :=
   fun op n _ h c => unknown_code_fails_in_block op n h c
+
+/-- ★ an explicit method does not look at the ambient setting: called with `d` inside a block of ANY code `a`
+(known or unknown), after any well-nested prefix, from any context, it gives `method op d` — the same as outside
+any block — and the ambient setting it leaves behind is still `a`.  (In the model `method` has no context
+argument; that the real methods and every helper they call behave so is what the tie and the oracle check,
+with operands of every sign class.) -/
+theorem explicit_call_ignores_ambient (op : Op) (d a : Code) {es : List Ev} (h : Balanced es) (c : Ctx) :
+    ∃ tr o, trace c (Ev.enter a :: (es ++ [.call op d])) = some tr ∧ tr.getLast? = some o
+      ∧ o.code = a ∧ o.res = some (method op d) := by
+  have hb : Balanced (es ++ [.call op d]) := Balanced.append h (Balanced.atom (.call op d) rfl)
+  obtain ⟨tr, htr⟩ := balanced_trace hb ⟨a, c.cur :: c.toks⟩
+  obtain ⟨c', hrun, hlast⟩ := trace_snoc _ es (.call op d) htr
+  rw [balanced_restores hb] at hrun
+  cases hrun
+  have hne : tr ≠ [] := by
+    intro h0; subst h0; simp at hlast
+  refine ⟨obsOf ⟨a, c.cur :: c.toks⟩ (.enter a) :: tr, obsOf ⟨a, c.cur :: c.toks⟩ (.call op d),
+    by simp [trace, stepCtx, htr], ?_, ?_, ?_⟩
+  · rw [List.getLast?_cons_of_ne_nil hne]; exact hlast
+  · simp [obsOf, get]
+  · simp [obsOf]
+
+/-- outside any block the same call gives the same outcome -/
+theorem explicit_call_outside (op : Op) (d : Code) (c : Ctx) :
+    (trace c [.call op d]).map (fun tr => tr.map (·.res)) = some [some (method op d)] := by
+  simp [trace, stepCtx, obsOf]
 
 /-- `sub`/`div` exchange perfect and opposite and nothing else -/
 theorem swapPO_involutive (d : Code) : swapPO (swapPO d) = d := by
